@@ -1,8 +1,15 @@
 /* C10 - typed parsing enforces the KSI schema; unknown elements obey the critical flag.
  *
  * Bounded-exhaustive mutation enumeration: every valid base object x every tree position x every
- * mutation operator (and, thorough tier, every pair of operators inside one container) is run through
- * the real typed parsers and compared with the declarative reference schema ref/ref_schema.c. */
+ * mutation operator (and, thorough tier, operator pairs inside one container) is run through the real
+ * typed parsers and compared with the declarative reference schema ref/ref_schema.c.
+ *
+ * Case names: self:<base>                       the unmodified base object
+ *             s:<base>:<position>:<operator>    one operator at one tree position (pre-order index)
+ *             p:<base>:<position>:<operator>    that operator (reduced set) followed by every operator at every
+ *                                               child of the same container of the mutated tree
+ * Violation signatures: accepts-invalid:<container>:<rule>, rejects-valid:<container>,
+ *             nc-unknown:fields-differ | not-preserved | verdict-changed, crash:... (from the runner). */
 #include "ku.h"
 #include "ref/ref_schema.h"
 #include "ref/ref_sig.h"
@@ -655,6 +662,18 @@ static void build_bases(void) {
 		vb_reset(&pl); put_cont(&pl, 0x02, &x);
 		vb_reset(&x); put_cont(&pl, 0x04, &x);
 		b = add_base("ext2-req", RR_EXT_V2, 0, 1); rp_wrap_request(&b->bytes, &e, pl.p, pl.n);
+		/* calendar chains consisting of left links only / of one right link only (each member of the at-least-one group alone) */
+		for (k = 0; k < 2; k++) {
+			unsigned char sib[RH_MAX_IMPRINT];
+			size_t sl = ref_fake_imprint(RH_SHA256, (unsigned)(90 + k), sib);
+			vb_reset(&x); rtlv_put_u64(&x, 0x01, T_PUB); rtlv_put_u64(&x, 0x02, T_SIGN); rtlv_put(&x, 0x05, 0, 0, h, hl, 0);
+			rtlv_put(&x, k ? 0x08 : 0x07, 0, 0, sib, sl, 0);
+			if (!k) rtlv_put(&x, 0x07, 0, 0, h, hl, 0);
+			vb_reset(&cal); put_cont(&cal, 0x0802, &x);
+			vb_reset(&pl); rp_ext_resp_payload(&pl, k ? 1 : 2, 13, 0, 0, NULL, 0, 0, cal.p, cal.n);
+			env_init(&e, k ? 1 : 2, RP_EXT, 0);
+			b = add_base(k ? "ext1-right" : "ext2-left", k ? RR_EXT_V1 : RR_EXT_V2, 0, 1); rp_wrap_response(&b->bytes, &e, pl.p, pl.n);
+		}
 		vb_free(&cal); vb_free(&pl); vb_free(&x);
 	}
 	/* ---- publications files */
@@ -776,6 +795,7 @@ static void judge(base_t *b, const unsigned char *p, size_t n, const char *where
 	if (acc && v == RSCH_ACCEPT && only_nc && info.unknown_nc > 0) {
 		base_reference(b);
 		vf_outcome("nc-ignored:%s:%s", rn, hashed ? "in-hashed-content" : "plain");
+		if (b->dump_res != KSI_OK) vf_outcome("nc-fields-not-compared:base-object-not-re-encodable");
 		if (b->dump_res == KSI_OK && !hashed) {
 			vbuf d;
 			int dr;
@@ -835,9 +855,6 @@ static void part_self(void) {
 	}
 }
 
-/* structure of the bases (positions, operators per position), computed once per process */
-typedef struct { int npos; } base_shape;
-
 static void part_single(void) {
 	int k;
 	for (k = 0; k < nbase; k++) {
@@ -846,7 +863,7 @@ static void part_single(void) {
 		int np, pi, oi;
 		static opdesc ops[MAXPOS][MAXOPS];
 		static int nops[MAXPOS];
-		if (!VF_THOROUGH && !b->quick) continue;
+		(void)b->quick;   /* both tiers: every base (the quick flag marks the 8 bases of the original bound) */
 		arena_reset();
 		t = tree_read(b->root, b->bytes.p, b->bytes.n);
 		np = dfs(t, pos, 0);
